@@ -7,6 +7,8 @@
     EVERY transition, harness/rw.cpp replays each behaviour on a real ReaderWriterMutex with real threads under the
     controlled scheduler, stopping the threads at the stop points the specification's actions are made of, compares
     the events the code emits at its linearization points with the step, and runs the RWAbs monitor on them.
+ 4. free-running: 2, 4 and 7 real threads without the scheduler (real blocking in the real WaitCondition, real memory ordering,
+    timing noise injected at the hooks); the holders themselves check exclusion, a watchdog checks that everybody finishes.
  3. code -> spec: seeded random programs (4 threads x 6 calls) under seeded random schedules; monitor + deadlock
     detector on all of them; the recorded event traces of a subset are validated against RWImpl by TLC (RWTrace.tla).
 """
@@ -94,6 +96,15 @@ def run(v, tier, seed):
         if r.error and not r.violated: raise vlib.MachineryError("RWTrace: " + r.error)
         return rows, accepted, other, maxline, nlines, tr
 
+    def free(nt, fiters, nops):
+        # real threads without the scheduler: real blocking in the real WaitCondition, real memory ordering, noise at the hooks
+        rep = W("free%d.ndjson" % nt)
+        rc, out, err = vlib.run([rw, "free", str(fiters), str(nt), str(nops), str(seed), rep], timeout=(900 if tier == "quick" else 3400))
+        if rc != 0:
+            vlib.harness_failed(v, rc, out, err, "rw free (%d threads, seed %d)" % (nt, seed), "crashfree%d" % nt)
+            return [{"summary": True, "executions": 0, "operations": 0}]
+        return vlib.read_ndjson(rep)
+
     iters = 1500 if tier == "quick" else 40000
     ntr = 150 if tier == "quick" else 1500
     with cf.ThreadPoolExecutor(max_workers=8) as ex:
@@ -102,6 +113,7 @@ def run(v, tier, seed):
         # quick: every transition of 2 threads x 3 calls with writer preference (the default), 2 x 2 without; thorough: 2 x 3 for both
         f_gr = [ex.submit(gen_and_replay, True, 2, 3), ex.submit(gen_and_replay, False, 2, 2 if tier == "quick" else 3)]
         f_ex = [ex.submit(explore, p, iters, 4, 6, ntr) for p in (True, False)]
+        f_fr = [ex.submit(free, nt, (300 if tier == "quick" else 6000), 400) for nt in (2, 4, 7)]
         f_mc3 = []
         if tier == "thorough":
             # three threads, two calls each, all calls; and three calls each without the timed variants
@@ -138,16 +150,23 @@ def run(v, tier, seed):
                 # the code did something the algorithm-level model does not allow, but no property-level monitor fired: drift
                 v.drift += 1
                 vlib.log("DRIFT property=C18 recorded trace (prefer=%s) is not a behaviour of RWImpl: first unexplained line %s of %s in %s" % (p, maxline, nlines, tr))
+        for f in f_fr:
+            rows = f.result()
+            summ = [r for r in rows if r.get("summary")][0]
+            tot["free"] = tot.get("free", 0) + summ["executions"]; tot["free_ops"] = tot.get("free_ops", 0) + summ["operations"]
+            for r in rows:
+                if r.get("violations"): v.violation("free-running threads: " + "; ".join(r["violations"]), r, tag="free%d" % r.get("threads", 0))
     if tot["followed"] == 0 and not v.violations and private_ok: raise vlib.MachineryError("no behaviour could be followed")
     cov = {"states": tot["states"], "transitions": tot["transitions"],
            "traces_validated_against_impl": tot["followed"] + tot["traces"],
            "behaviours_replayed": tot["behaviours"], "behaviours_followed_to_the_end": tot["followed"], "replay_steps": tot["steps"],
            "events_checked": tot["events"], "random_executions": tot["explore"], "scheduling_decisions": tot["yields"],
            "trace_lines_validated_by_tlc": tot["trace_lines"], "executions_validated_by_tlc": tot["traces"],
+           "free_running_executions": tot.get("free", 0), "free_running_lock_calls": tot.get("free_ops", 0),
            "evaluations": tot["behaviours"] + tot["explore"], "distinct_nontrivial": tot["followed"],
            "rule": "behaviours = path cover of EVERY transition of the TLC state graph of RWImpl (%d threads x %d calls, all 8 calls, both preference settings); distinct by construction (each adds an uncovered transition), non-trivial = followed to the end with every step's event equal to the specification's; random executions: 4 threads x 6 calls" % (T, K),
            "exhaustive": True, "model_runs": mc_notes, "samples": samples[:4]}
-    assumptions = ["sequential consistency: the scheduler serialises threads at the hooked operations (Mutex, WaitCondition, AtomicCounter); weak-memory effects are out of scope",
+    assumptions = ["sequential consistency in the model-based stages: the scheduler serialises threads at the hooked operations (Mutex, WaitCondition, AtomicCounter); weak-memory effects and the blocking paths of the real WaitCondition are exercised only by the free-running stage (sampled, on this machine's memory model)",
                    "timed calls use a deadline that never passes by itself; the scheduler decides when a timed Wait() times out",
                    "recorded traces given to TLC keep _stateMutex critical sections atomic (no pre-emption while a muscle Mutex is held); all other random executions are pre-empted at every hooked operation and judged by the monitor only"]
     return "model_checking", cov, assumptions
